@@ -431,7 +431,10 @@ func (context *RunContext) load() error {
 				// make(map[common.address]bool)
 			} else {
 				curPos := offset + itemHeadLen
-				context.Candidates.Decode(bodyBuf[curPos:(curPos+int(itemHead.Len))], int(itemHead.Len))
+				err = context.Candidates.Decode(bodyBuf[curPos:(curPos+int(itemHead.Len))], int(itemHead.Len))
+				if err != nil {
+					return err
+				}
 			}
 		}
 
@@ -546,7 +549,17 @@ func (context *RunContext) encodeBody() ([]byte, error) {
 }
 
 func (context *RunContext) flush(headBuf, bodyBuf []byte) error {
-	file, err := os.OpenFile(context.Path, os.O_WRONLY, os.ModePerm)
+	// Write a new file and rename it. So a crash leaves the old content or the new content, never a head without its body
+	tmpPath := context.Path + ".tmp"
+	err := context.writeFile(tmpPath, headBuf, bodyBuf)
+	if err != nil {
+		return err
+	}
+	return os.Rename(tmpPath, context.Path)
+}
+
+func (context *RunContext) writeFile(path string, headBuf, bodyBuf []byte) error {
+	file, err := os.OpenFile(path, os.O_WRONLY|os.O_CREATE|os.O_TRUNC, os.ModePerm)
 	defer file.Close()
 	if err != nil {
 		return err
